@@ -16,7 +16,6 @@
 import inspect
 import logging
 import uuid
-from textwrap import indent
 from time import time
 from typing import Any, Dict, List, Optional, Tuple
 from urllib.parse import urljoin
@@ -32,6 +31,7 @@ from nemoguardrails.colang.v1_0.runtime.flows import (
     compute_context,
     compute_next_steps,
 )
+from nemoguardrails.colang.v1_0.runtime.utils import get_dynamic_flow_content
 from nemoguardrails.logging.processing_log import processing_log_var
 from nemoguardrails.utils import new_event_dict, new_uuid
 
@@ -150,6 +150,10 @@ class RuntimeV1_0(Runtime):
             {"type": "event", "timestamp": time(), "data": events[-1]}
         )
 
+        # The ids of the flows generated dynamically (e.g., by the LLM) that were started
+        # while processing these events. A failure while running them is contained.
+        dynamic_flow_ids = []
+
         while True:
             last_event = events[-1]
 
@@ -166,18 +170,28 @@ class RuntimeV1_0(Runtime):
             if last_event["type"] == "StartInternalSystemAction":
                 next_events = await self._process_start_action(events)
 
-            # If we need to start a flow, we parse the content and register it.
-            elif last_event["type"] == "start_flow":
-                next_events = await self._process_start_flow(
-                    events, processing_log=processing_log
-                )
-
             else:
-                # We need to slide all the flows based on the current event,
-                # to compute the next steps.
-                next_events = await self._compute_next_steps(
-                    events, processing_log=processing_log
-                )
+                try:
+                    # If we need to start a flow, we parse the content and register it.
+                    if last_event["type"] == "start_flow":
+                        dynamic_flow_ids.append(last_event["flow_id"])
+                        next_events = await self._process_start_flow(
+                            events, processing_log=processing_log
+                        )
+
+                    else:
+                        # We need to slide all the flows based on the current event,
+                        # to compute the next steps.
+                        next_events = await self._compute_next_steps(
+                            events, processing_log=processing_log
+                        )
+                except Exception as e:
+                    # Only a failure that can be caused by a dynamically generated flow
+                    # is contained. Everything else is still an error.
+                    if not dynamic_flow_ids:
+                        raise
+
+                    next_events = self._dynamic_flow_failed(dynamic_flow_ids, e)
 
                 if len(next_events) == 0:
                     next_events = [new_event_dict("Listen")]
@@ -197,9 +211,31 @@ class RuntimeV1_0(Runtime):
 
             # As a safety measure, we stop the processing if we have too many events.
             if len(new_events) > 100:
-                raise Exception("Too many events.")
+                e = Exception("Too many events.")
+                if not dynamic_flow_ids:
+                    raise e
+
+                next_events = self._dynamic_flow_failed(dynamic_flow_ids, e)
+                events.extend(next_events)
+                new_events.extend(next_events)
+                break
 
         return new_events
+
+    def _dynamic_flow_failed(self, flow_ids: List[str], e: Exception) -> List[dict]:
+        """Contain a failure while running dynamically generated flows.
+
+        The generated flows are discarded and the turn ends with the same message as
+        for a failed action.
+        """
+        log.warning("Error while running a dynamically generated flow: %s", e)
+
+        for flow_id in flow_ids:
+            self.flow_configs.pop(flow_id, None)
+
+        return self._internal_error_action_result(
+            "I'm sorry, an internal error has occurred."
+        ).events + [new_event_dict("Listen")]
 
     async def _compute_next_steps(
         self, events: List[dict], processing_log: List[dict]
@@ -491,7 +527,12 @@ class RuntimeV1_0(Runtime):
         # We need to alter it to be an actual flow definition, i.e., add `define flow xxx`
         # and intent the body.
         body = event["flow_body"]
-        body = "define flow " + flow_id + ":\n" + indent(body, "  ")
+
+        # An empty body cannot be turned into a flow definition.
+        if not body.strip():
+            raise ValueError("The body of a dynamically generated flow is empty.")
+
+        body = get_dynamic_flow_content(flow_id, body)
 
         # We parse the flow
         parsed_data = parse_colang_file("dynamic.co", content=body)
